@@ -119,7 +119,7 @@ def main(argv=None):
                 changed.append(key)
     source_changed = bool(changed) or baseline is None
 
-    known = [k for k in load_known() if k["property"] == prop]
+    known = load_known()
     known_active = {k["id"]: k for k in known if k["status"] == "known"}
 
     # ---- classify
@@ -305,7 +305,13 @@ def do_replay(prop, path):
         print(f"replay {path}: no failing input was found by the solver; obligation {rec['obligation']}")
         print(json.dumps(rec.get("solver"), indent=1))
         return 1
-    rp = vc.replay_concrete(c, rec["cfg"], vc.model_from_json(rec["model"]))
+    def tup(x):
+        if isinstance(x, list):
+            return tuple(tup(y) for y in x)
+        if isinstance(x, dict):
+            return {k: tup(v) for k, v in x.items()}
+        return x
+    rp = vc.replay_concrete(c, tup(rec["cfg"]), vc.model_from_json(rec["model"]))
     print(json.dumps({"obligation": rec["obligation"], "outcome": rp["outcome"], "failed": rp["failed"]}, indent=1, default=str))
     if rp["failed"]:
         print(f"VIOLATION property={prop} replay={path}")
